@@ -2,6 +2,7 @@ import KawinV.Proto
 import KawinV.Gen.C18Strength
 import KawinV.Model.Strength
 import KawinV.Model.GrainGrowth
+import KawinV.Model.Coupling
 /-! driver verbs for C18: generated strength formulas, strength array-logic model, grain-growth model
 (Float instance) -/
 namespace KawinV.Drv.C18
@@ -145,6 +146,24 @@ def gg : P String := do
   let d := (List.range n).map (Grain.dXdt n (fn rt) p bd)
   pure s!"{flist gr} {flist rt.toList} {flist d} {flist nf}"
 
+/-- one coupling-list operation: `A id cls` (addCouplingModel), `C` (clearCouplingModels), `S` (host step) -/
+def cop : P Coupling.Op := do
+  let t ← tok
+  match t with
+  | "A" => do let i ← nat; let c ← nat; pure (Coupling.Op.attach ⟨i, c⟩)
+  | "C" => pure Coupling.Op.clear
+  | "S" => pure Coupling.Op.step
+  | _ => failure
+
+/-- c18.couple variant ops → attached ids (list order), host steps, log of update calls (host index, id)*;
+variant 0 = addCouplingModel as it is (append), 1 = de-duplication by class -/
+def couple : P String := do
+  let v ← nat; let ops ← lst cop
+  let s := Coupling.run (if v = 0 then Coupling.attach else Coupling.attachDedup) Coupling.init ops
+  let ids := s.models.map (fun m => toString m.id)
+  let lg := s.log.map (fun e => s!"{e.1} {e.2.id}")
+  pure (" ".intercalate (toString ids.length :: ids ++ [toString s.n, toString lg.length] ++ lg))
+
 def handle (verb : String) : Option (P String) :=
   match verb with
   | "c18.gen" => some gen
@@ -158,6 +177,7 @@ def handle (verb : String) : Option (P String) :=
   | "c18.cg" => some cg
   | "c18.norm" => some norm
   | "c18.gg" => some gg
+  | "c18.couple" => some couple
   | _ => none
 
 end KawinV.Drv.C18
